@@ -1,6 +1,7 @@
 import SpecVerif.Proofs.Lemmas.Levinson
 import SpecVerif.Proofs.Lemmas.LevinsonPD
 import SpecVerif.Proofs.Lemmas.Toeplitz
+import SpecVerif.Proofs.Lemmas.SchurCohn
 import Mathlib.Algebra.Star.Rat
 /-
   C10 — the Levinson recursion solves the Hermitian Toeplitz normal equations.
@@ -12,6 +13,11 @@ import Mathlib.Algebra.Star.Rat
   `star (r (j-i))` for `j > i`; it is written out in the statements.
 
   Property theorems only (helper lemmas live in `Proofs/Lemmas/Levinson.lean`).
+
+  Stability (minimum phase) is now PROVED for every order, not only order 1: for a positive definite
+  autocorrelation all roots of `z^p + a_1 z^{p-1} + … + a_p` lie strictly inside the unit circle
+  (`levinson_stable`, via the Schur–Cohn theorem for the step-up recursion in
+  `Proofs/Lemmas/SchurCohn.lean`, namespace `SpecVerif.SchurL`).
 -/
 namespace SpecVerif.C10
 open Finset SpecVerif
@@ -393,5 +399,70 @@ theorem levinson_stable_order1 (r0 : F) (T : List F) (h0 : star r0 = r0) (hT : 1
   exact hk
 
 end PD
+
+/-! ### stability for every order (Schur–Cohn) -/
+
+section Stability
+variable {F : Type} [RCLike F]
+
+/-- **stability, every order**: under the hypotheses of `levinson_pd` (positive definite leading
+`(p+1)×(p+1)` Hermitian Toeplitz block) every root `z` of the returned prediction polynomial
+`A(z) = z^p + a_1 z^{p-1} + … + a_p` (`[1, a_1..a_p]`, highest power first, is what is handed to
+`numpy.roots`; this is `SchurL.polyA (levRun r0 T p).A z`) lies strictly inside the unit circle. -/
+theorem levinson_stable (r0 : F) (T : List F) (p : ℕ) (h0 : star r0 = r0) (hp : p ≤ T.length)
+    (r : ℕ → F) (hr0 : r 0 = r0) (hr : ∀ j, r (j + 1) = nth T j)
+    (hpd : ∀ v : ℕ → F, (∃ i, i ≤ p ∧ v i ≠ 0) →
+      0 < RCLike.re (∑ i ∈ range (p + 1), ∑ j ∈ range (p + 1),
+        star (v i) * (if j ≤ i then r (i - j) else star (r (j - i))) * v j))
+    (z : F) (hz : z ^ p + ∑ j ∈ range p, nth (levRun r0 T p).A j * z ^ (p - 1 - j) = 0) :
+    ‖z‖ < 1 :=
+  SchurL.levRun_root_lt_one r0 T p (levinson_pd r0 T p h0 hp r hr0 hr hpd).2 z hz
+
+/-- the same with the helper definition: `SchurL.polyA a z = z^m + Σ_{j<m} a_j z^{m-1-j}`, `m` the
+length of `a` — no zero on or outside the unit circle -/
+theorem levinson_stable_polyA (r0 : F) (T : List F) (p : ℕ) (h0 : star r0 = r0) (hp : p ≤ T.length)
+    (r : ℕ → F) (hr0 : r 0 = r0) (hr : ∀ j, r (j + 1) = nth T j)
+    (hpd : ∀ v : ℕ → F, (∃ i, i ≤ p ∧ v i ≠ 0) →
+      0 < RCLike.re (∑ i ∈ range (p + 1), ∑ j ∈ range (p + 1),
+        star (v i) * (if j ≤ i then r (i - j) else star (r (j - i))) * v j))
+    (z : F) (hz : 1 ≤ ‖z‖) : SchurL.polyA (levRun r0 T p).A z ≠ 0 := by
+  intro h
+  rw [SchurL.polyA_eq _ p (levRun_A_length r0 T p)] at h
+  exact absurd (levinson_stable r0 T p h0 hp r hr0 hr hpd z h) (not_lt.mpr hz)
+
+/-- **positive stage errors alone give stability** (what `LEVINSON` checks when
+`allow_singularity=False`): if `re P_m > 0` for all `m ≤ p`, all roots are strictly inside the unit
+circle. -/
+theorem levinson_stable_of_pos (r0 : F) (T : List F) (p : ℕ)
+    (hpos : ∀ m, m ≤ p → 0 < RCLike.re (levRun r0 T m).P)
+    (z : F) (hz : z ^ p + ∑ j ∈ range p, nth (levRun r0 T p).A j * z ^ (p - 1 - j) = 0) :
+    ‖z‖ < 1 :=
+  SchurL.levRun_root_lt_one r0 T p (levinson_refl_lt_one_of_pos r0 T p hpos) z hz
+
+/-- **minimum phase on the frequency grid**: under the same hypotheses the polynomial
+`1 + a_1 w + … + a_p w^p` evaluated by the PSD code has no zero in the closed unit disc, in particular
+none on the unit circle `|w| = 1` — the AR spectrum `P / |A(e^{-iω})|²` has no pole. -/
+theorem levinson_no_unit_zeros (r0 : F) (T : List F) (p : ℕ) (h0 : star r0 = r0) (hp : p ≤ T.length)
+    (r : ℕ → F) (hr0 : r 0 = r0) (hr : ∀ j, r (j + 1) = nth T j)
+    (hpd : ∀ v : ℕ → F, (∃ i, i ≤ p ∧ v i ≠ 0) →
+      0 < RCLike.re (∑ i ∈ range (p + 1), ∑ j ∈ range (p + 1),
+        star (v i) * (if j ≤ i then r (i - j) else star (r (j - i))) * v j))
+    (w : F) (hw : ‖w‖ ≤ 1) :
+    1 + ∑ j ∈ range p, nth (levRun r0 T p).A j * w ^ (j + 1) ≠ 0 :=
+  SchurL.levRun_rev_ne_zero r0 T p (levinson_pd r0 T p h0 hp r hr0 hr hpd).2 w hw
+
+/-- non-vacuity (order 2, real) of `levinson_stable_of_pos`: for `r = [2, 1, 1/5]` the stage errors
+are `2, 3/2, 36/25 > 0` (reflection coefficients `-1/2, 1/5`). -/
+example : ∀ m, m ≤ 2 → 0 < RCLike.re (levRun (2 : ℝ) [1, 1 / 5] m).P := by
+  intro m hm
+  have : m = 0 ∨ m = 1 ∨ m = 2 := by omega
+  rcases this with rfl | rfl | rfl
+  · simp [levRun]
+  · simp [levRun, levStep, sumR, nth, abs2]
+    norm_num
+  · simp [levRun, levStep, levup, vec, sumR, nth, abs2, List.range_succ]
+    norm_num
+
+end Stability
 
 end SpecVerif.C10
